@@ -15,6 +15,7 @@ static std::string gen_text(Rng& r, model::GenOpts go, int depth, int ws_max, JV
   JVal v = model::gen_value(r, go);
   if (!v.is_container() && r.chance(2, 3)) { JVal w = r.chance(1, 2) ? JVal::arr() : JVal::obj(); if (w.k == JVal::Arr) { w.a.push_back(v); w.a.push_back(model::gen_value(r, go, 1)); } else { w.o.emplace_back(model::gen_key(r, go), v); } v = w; }
   std::string t; model::WriteOpts wo; wo.ws_rng = &r; wo.ws_max = ws_max; wo.escape_more = r.chance(1, 3);
+  if (r.chance(1, 25)) { v = model::gen_dense_value(r); wo.ws_max = 0; wo.escape_more = false; }   // compact text, most nodes per byte
   model::write(v, t, wo);
   if (out) *out = v;
   return t;
@@ -146,11 +147,15 @@ static void gen_c11(uint64_t seed, uint64_t run, const std::string& tier, Plan& 
   p.prop = "C11"; p.seed = seed; p.run = run; p.tier = tier;
   p.knobs["envseed"] = (int64_t)(mix64(rs ^ 0x77) >> 1);
   model::GenOpts go; go.dup_keys = r.chance(1, 4); go.big_strings = r.chance(1, 3); go.key_alphabet = 4; go.max_children = 4;
-  size_t n = (size_t)r.range(1, 3);
+  bool longkeys = r.chance(1, 8);   // keys of 200..300 bytes (scratch buffers for escaped keys), text limit raised for this run
+  if (longkeys) { static const int fl[] = {200, 225, 240, 255, 256, 300}; go.family_len = fl[r.below(6)]; go.max_children = 2; }
+  size_t n = (size_t)r.range(1, longkeys ? 1 : 3);
   for (size_t i = 0; i < n; i++) {
-    std::string t = gen_text(r, go, (int)r.range(1, 3), r.chance(1, 3) ? 70 : 3);
+    std::string t = gen_text(r, go, (int)r.range(1, longkeys ? 2 : 3), r.chance(1, 3) ? (r.chance(1, 4) ? 300 : 70) : 3);
+    if (longkeys) { JVal o = JVal::obj(); size_t m = (size_t)r.range(1, 2); for (size_t k = 0; k < m; k++) { go.big_strings = true; std::string key; do key = model::gen_key(r, go); while (key.size() < 100); if (o.find(key) < 0) o.o.emplace_back(key, model::gen_scalar(r, go)); } model::WriteOpts wo; wo.ws_rng = &r; wo.ws_max = 2; wo.escape_more = true; t.clear(); model::write(o, t, wo); }
     if (r.chance(1, 3)) t = mutate_text(r, t);
-    if (t.size() > (tier == "thorough" ? 400u : 220u)) t.resize(tier == "thorough" ? 400 : 220);
+    size_t cap = longkeys ? 900u : (tier == "thorough" ? 400u : 220u);
+    if (t.size() > cap) t.resize(cap);
     size_t npaths = (size_t)r.range(1, 3);
     for (size_t k = 0; k < npaths; k++) {
       p.ops.emplace_back(); Op& op = p.ops.back();
@@ -360,7 +365,7 @@ static void gen_c15(uint64_t seed, uint64_t run, const std::string& tier, Plan& 
   p.prop = "C15"; p.seed = seed; p.run = run; p.tier = tier;
   p.knobs["envseed"] = (int64_t)(mix64(rs ^ 0x77) >> 1);
   model::GenOpts go; go.dup_keys = r.chance(1, 4); go.big_strings = true; go.max_str = (int)r.range(4, 70); go.key_alphabet = 5;
-  if (r.chance(1, 2)) { static const int fl[] = {13, 15, 33, 40, 65, 70, 97, 130, 200}; go.family_len = fl[r.below(9)]; }   // look-alike keys of one length
+  if (r.chance(1, 2)) { static const int fl[] = {13, 15, 33, 40, 65, 70, 97, 130, 200, 225, 240, 255, 256, 300, 520}; go.family_len = fl[r.below(r.chance(1, 3) ? 15 : 9)]; }   // look-alike keys of one length
   size_t n = (size_t)r.range(2, tier == "thorough" ? 10 : 6);
   for (size_t i = 0; i < n; i++) {
     p.ops.emplace_back(); Op& op = p.ops.back();
